@@ -13,13 +13,16 @@ OUT=seeded/MATRIX.tsv
 TMP=$(mktemp)
 SEEDS=("$@")
 if [ ${#SEEDS[@]} -eq 0 ]; then
-  SEEDS=($(ls seeded | grep -E '^C[0-9]+-[0-9]+$' | sort))
+  SEEDS=($(ls seeded | grep -E '^C[0-9]+b?-[0-9]+$' | sort))
 fi
 printf "seed\tcheck\texit\tviolation_groups\tfirst_violation\n" > "$TMP"
 trap 'git -C /repo checkout -- . ; ./vcheck build >/dev/null 2>&1; git -C /verif checkout -- evidence 2>/dev/null' EXIT
 for S in "${SEEDS[@]}"; do
   D="seeded/$S"
   CHECKS=$(python3 -c "import json;m=json.load(open('$D/meta.json'));print(' '.join(sorted(set(r['check'] for r in m['reported_by']))))")
+  if [ -z "$CHECKS" ]; then
+    printf "%s\t-\tnot-reported-by-any-check\t0\t-\n" "$S" >> "$TMP"; continue
+  fi
   if ! git -C /repo apply --check "$(readlink -f "$D/patch.diff")" 2>/dev/null; then
     printf "%s\t-\tpatch-does-not-apply\t0\t-\n" "$S" >> "$TMP"; continue
   fi
